@@ -59,6 +59,8 @@ def rand_string(rnd):
     pre, q, body = rnd.choice(STR_PREFIX), rnd.choice(["'", '"', "'", '"', "'''", '"""']), rnd.choice(STR_BODY)
     if "b" in pre.lower() and not body.isascii():
         body = "x"
+    if len(q) == 3 and "f" not in pre.lower() and rnd.random() < 0.3:
+        body = rnd.choice(["x\ny", "a\n b", "\nz"])  # a triple-quoted string may run over a line end inside a word
     return pre + q + body + q
 
 
